@@ -288,7 +288,7 @@ async def mid_history(lines, cfg, k, what):
     gwy.add_msg_handler(handler)
     hung = False
     try:
-        await asyncio.wait_for(gwy.start(), 3)         # returns when the whole log has been read
+        await asyncio.wait_for(gw.start(gwy, patience=20.0), 25)         # returns when the whole log has been read
         await gw.settle(60)
     except (asyncio.CancelledError, TimeoutError, Exception):  # noqa: BLE001
         hung = True
